@@ -53,7 +53,8 @@ def campaign(prop, runs, seed, corpus=(), timeout=3600):
             data = fh.read()
         import importlib
         mod = importlib.import_module("props." + prop.lower())
-        case = mod.fuzz_decode(data)
+        decode = mod.fuzz_decode if hasattr(mod, "fuzz_decode") else hyp_decoder(mod)
+        case = decode(data)
         if case is not None:
             findings, _ = mod.run_case(case)
             if findings:
@@ -64,6 +65,30 @@ def campaign(prop, runs, seed, corpus=(), timeout=3600):
             "wall": time.time() - t0, "note": "" if execs else err[-400:]}
 
 
+def hyp_decoder(mod):
+    """bytes -> case through the module's own Hypothesis strategy (fuzz_one_input): every @given-based property gets a
+    structured, coverage-guided byte-level target for free."""
+    import hypothesis
+    from hypothesis import given, settings, HealthCheck
+    box = {}
+
+    @settings(database=None, deadline=None, suppress_health_check=list(HealthCheck))
+    @given(mod.strategy("quick"))
+    def probe(case):
+        box["case"] = case
+
+    def decode(data):
+        box.pop("case", None)
+        try:
+            probe.hypothesis.fuzz_one_input(data)
+        except Exception:  # pylint: disable=broad-except
+            return None
+        return box.get("case")
+
+    del hypothesis
+    return decode
+
+
 def child(prop, runs, seed, work):
     import importlib
     import atheris
@@ -72,9 +97,10 @@ def child(prop, runs, seed, work):
     seen = set()
     counter = {"n": 0, "nontrivial": 0}
     from .runner import chash
+    decode = mod.fuzz_decode if hasattr(mod, "fuzz_decode") else hyp_decoder(mod)
 
     def target(data):
-        case = mod.fuzz_decode(data)
+        case = decode(data)
         if case is None:
             return
         findings, info = mod.run_case(case)
@@ -84,14 +110,15 @@ def child(prop, runs, seed, work):
             if h not in seen:
                 seen.add(h)
                 counter["nontrivial"] = len(seen)
-        if counter["n"] % 500 == 0 or findings:
+        counter["decoded"] = counter["n"]
+        if counter["n"] % 200 == 0 or findings:
             with open(os.path.join(work, "stats.json"), "w") as fh:
                 json.dump(counter, fh)
         if findings:
             raise AssertionError("; ".join(f["tag"] for f in findings))
 
-    argv = [sys.argv[0], "-runs=%d" % runs, "-seed=%d" % (seed or 1), "-artifact_prefix=%s/" % work, "-max_len=512",
-            "-print_final_stats=1", os.path.join(work, "corpus")]
+    argv = [sys.argv[0], "-runs=%d" % runs, "-seed=%d" % (seed or 1), "-artifact_prefix=%s/" % work, "-max_len=%d" % (512 if hasattr(mod, "fuzz_decode") else 8192),
+            "-print_final_stats=1", "-len_control=0", os.path.join(work, "corpus")]
     atheris.Setup(argv, target)
     atheris.Fuzz()
 
